@@ -1,4 +1,4 @@
-import CentrifugeVerif.Proofs.MapPage
+import CentrifugeVerif.Proofs.MapPageHub
 /-!
 # C21 — map state pagination enumerates every key exactly once (memory broker part)
 
@@ -56,6 +56,47 @@ theorem page_progress (asc : Bool) (keys : List Elem) (hnd : keys.Nodup) (limit 
     (getPage (elemLt asc) (isort (elemLt asc) keys) cur limit).items.getLast? = some c' ∧
     ∀ c, cur = some c → elemLt asc c c' = true :=
   getPage_progress (elemLt_strictTotal asc) _ (isort_sorted (elemLt_strictTotal asc) keys hnd) limit hl cur c' hc'
+
+open CentrifugeVerif.MapHub in
+/-- **hub_pages_concat** (the hub model of `mapHub.getState`): for every hub state, every existing channel of
+any mode, ordered or not, every `limit ≥ 1`, either direction: requesting `ReadState` pages from the empty cursor
+while the returned cursor is non-empty terminates within `size + 1` requests; the concatenation of the pages is
+the list of the stored publications in the channel's sort order, one per key (same length as the state, the
+sorted element list is a permutation of the channel's `(score, key)` elements and strictly sorted). -/
+theorem hub_pages_concat (rc : RawCfg) (cfg : Cfg) (h : Hub) (ch : Nat) (c : Chan) (limit : Int) (asc : Bool)
+    (hres : resolve rc = some cfg) (hc : aget h.chans ch = some c) (hnd : (akeys c.state).Nodup) (hl : 0 < limit) :
+    hubPaginate rc h ch limit asc (c.state.length + 1) none []
+      = some ((isort (elemLt (c.dir asc)) c.elems).filterMap (pubOf c), true) ∧
+    ((isort (elemLt (c.dir asc)) c.elems).filterMap (pubOf c)).length = c.state.length ∧
+    (isort (elemLt (c.dir asc)) c.elems).Perm c.elems ∧
+    (isort (elemLt (c.dir asc)) c.elems).Pairwise (fun a b => elemLt (c.dir asc) a b = true) :=
+  MapHub.hub_pages_concat rc cfg h ch c limit asc hres hc hnd hl
+
+open CentrifugeVerif.MapHub in
+/-- **single_key_read**: `ReadState` with `Key` set returns exactly the stored entry (or nothing), whatever
+`Limit`, `Cursor` and direction are. -/
+theorem single_key_read (rc : RawCfg) (cfg : Cfg) (h : Hub) (ch : Nat) (c : Chan) (o : StateOpts)
+    (hres : resolve rc = some cfg) (hc : aget h.chans ch = some c) (hk : o.key ≠ [])
+    (hrev : ∀ rv, o.rev = some rv → rv.epoch = c.stream.epoch) :
+    getState rc h ch o
+      = (h, ⟨.state (match aget c.state o.key with | some e => [e.pub] | none => []) c.stream.pos none c.ordered, []⟩) :=
+  MapHub.single_key_read rc cfg h ch c o hres hc hk hrev
+
+/-! a concrete hub on which the hypotheses hold: ordered channel, ties, prefix keys -/
+section Example
+open CentrifugeVerif.MapHub
+private def exPub (k : Key) (d : Nat) (s : Int) : Pub := ⟨k, d, 0, s, 0, false, 0⟩
+private def exChan : Chan :=
+  { stream := ⟨0, [], 1⟩, ordered := true,
+    state := [([1], ⟨exPub [1] 10 5, 5, 0, 0, 0⟩), ([1, 0], ⟨exPub [1, 0] 11 5, 5, 0, 0, 0⟩), ([2], ⟨exPub [2] 12 (-3), -3, 0, 0, 0⟩)],
+    scores := [([1], 5), ([1, 0], 5), ([2], -3)] }
+private def exHub : Hub := { Hub.init with chans := [(0, exChan)], nextEpoch := 2 }
+example : resolve ⟨1, 1000, 0, true⟩ = some ⟨1, 1000, 0, true⟩ := by decide
+example : aget exHub.chans 0 = some exChan := by decide
+example : (akeys exChan.state).Nodup := by decide
+example : hubPaginate ⟨1, 1000, 0, true⟩ exHub 0 2 false 4 none []
+    = some ([exPub [1, 0] 11 5, exPub [1] 10 5, exPub [2] 12 (-3)], true) := by decide
+end Example
 
 /-! Non-vacuity: ties, Min/MaxInt64, a key that is a prefix of another, a NUL byte. -/
 example : paginateAll (elemLt false)
